@@ -297,7 +297,7 @@ class Gen:
             ('left_recursion', [True, False]),
             ('parseinfo', [True, False]), ('memoization', [True, False]),
             ('namechars', ['-', '-_', "'", '"', '$.'] + (['\'"'] if self.risky else [])),
-            ('whitespace', [r'[ \t]+', r'\s+', ' ', r'[\t ]*', r'[ /]+', r'["]+'] +
+            ('whitespace', [r'[ \t]+', r'\s+', ' ', r'[\t ]+', r'[ /]+', r'["]+'] +
              (['', r'["/]+', None] if self.risky else [])),
             ('comments', [r'\(\*.*?\*\)', r'/\*.*?\*/', r'\{[^}]*\}'] + ([r'/"[^"]*"/'] if self.risky else [])),
             ('eol_comments', [r'#.*?$', r'//.*?$', r'--[^\n]*'] + ([r'"/.*?$'] if self.risky else [])),
@@ -648,7 +648,7 @@ def canon(x):
 def parse_outcome(model, text):
     from tatsu.exceptions import ParseException
     try:
-        return ('ok', canon(guarded(lambda: model.parse(text))))
+        return ('ok', canon(guarded(lambda: model.parse(text), 2)))
     except Timeout:
         return ('timeout',)
     except RecursionError:
@@ -716,6 +716,8 @@ def check_model(m, inputs, compile_fn):
     for text in inputs:
         o1 = parse_outcome(m, text)
         o2 = parse_outcome(m2, text)
+        if o1 == o2 == ('timeout',):
+            break      # a hang of the engine itself (e.g. a whitespace pattern that matches empty) is not C13's
         if o1 != o2:
             return ('parse-differs', f'{o1[0]}->{o2[0]}')
     return None
@@ -960,41 +962,61 @@ def str_class(s: str) -> str:
     return '+'.join(f) or 'plain'
 
 
+def lit_class(s) -> str:
+    """class of a constant / alert literal"""
+    if not isinstance(s, str):
+        return type(s).__name__
+    c = str_class(s)
+    try:
+        v = pyast.literal_eval(s.strip())
+        if not isinstance(v, str):
+            c = 'numlike' if c == 'plain' else c + '+numlike'
+    except Exception:
+        pass
+    return c
+
+
 def features(spec) -> list[str]:
     out = set()
+    rules = {r['name']: r for r in spec['rules']}
     for name, v in spec['directives']:
         out.add(f'@@{name}:' + (str_class(v) if isinstance(v, str) else repr(v)))
     for k in spec['keywords']:
-        out.add('keyword:' + str_class(k))
+        if k != 'kw':
+            out.add('keyword:' + str_class(k))
+    if len(spec['keywords']) > 3:
+        out.add('keywords:many')
     for i, r in enumerate(spec['rules']):
         for d in r['decorators']:
             out.add('@' + d)
         for f in r['flags']:
             out.add('flag:' + f)
         if r['base']:
-            out.add('based')
+            b = rules.get(r['base'])
+            if r['params'] or r['kwparams'] or (b and (b['params'] or b['kwparams'])):
+                out.add('based+params')
+            else:
+                out.add('based')
         for p in r['params']:
             if p != 'P':
                 out.add('param:' + (str_class(p) if isinstance(p, str) else type(p).__name__))
         for k, v in r['kwparams']:
-            out.add('kwparam' + ('' if v == 'v' else ':' + (str_class(v) if isinstance(v, str) else type(v).__name__)))
-        if r['params'] and r['base']:
-            out.add('based+params')
+            if v != 'v':
+                out.add('kwparam:' + (str_class(v) if isinstance(v, str) else type(v).__name__))
+            elif not r['base']:
+                out.add('kwparam')
         for e in walk(r['exp']):
             k = e[0]
             if k == 'tok':
-                if e[1] != 'a':
+                if e[1] not in ('a', 'b', ','):
                     out.add('tok:' + str_class(e[1]))
             elif k == 'pat':
                 if e[1] != 'a':
                     out.add('pat:' + str_class(e[1]))
             elif k == 'const':
-                if e[1] != 'c':
-                    out.add('const:' + str_class(e[1]))
-                else:
-                    out.add('const')
+                out.add('const' + ('' if e[1] == 'c' else ':' + lit_class(e[1])))
             elif k == 'alert':
-                out.add('alert' + ('' if e[2] == 'c' else ':' + str_class(e[2])))
+                out.add('alert' + ('' if e[2] == 'c' else ':' + lit_class(e[2])))
             elif k == 'meta':
                 out.add('meta:' + e[1])
             elif k in ('seq', 'call', 'eof'):
@@ -1004,12 +1026,21 @@ def features(spec) -> list[str]:
     return sorted(out)
 
 
+NONSTR = ('param:int', 'param:float', 'param:bool', 'param:NoneType', 'kwparam:int', 'kwparam:float', 'kwparam:bool',
+          'kwparam:NoneType')
+
+
 def signature(kind, detail, origin, spec) -> str:
-    oc = 'text' if origin in ('text', 'json') else 'prog'
-    return f'{kind}[{detail}]:{oc}:' + ','.join(features(spec))
+    """defect class of a SHRUNK failing grammar: failure kind + the features left in it.  The exception type of
+    a failed recompile and the direction of a parse difference depend on the sample and are left out."""
+    feats = features(spec)
+    if kind == 'rails-raises':
+        feats = sorted({('param:nonstr' if f in NONSTR else f) for f in feats} - {'param:plain'})
+    if kind in ('recompile-fails', 'parse-differs', 'not-fixpoint', 'pretty-raises', 'pretty2-raises'):
+        detail = ''
+    return f'{kind}[{detail}]:' + ','.join(feats)
 
 
-# ---------------------------------------------------------------------------------------------------
 # ---------------------------------------------------------------------------------------------------
 # atomic probes: every feature of a failing grammar is tried alone in a minimal grammar; a failing probe is
 # itself a counterexample with a stable signature.  Only when no single feature explains the failure is the
@@ -1089,7 +1120,7 @@ def atoms(spec):
                           bp, bk))
         for e in walk(r['exp']):
             sh = shallow(e)
-            if sh is None or sh == A:
+            if sh is None or sh == A or sh == ('eof',):
                 continue
             if sh[0] == 'include':
                 ms = mini(('include', 'b0'))
@@ -1102,7 +1133,10 @@ def atoms(spec):
     return out
 
 
-RISKY_KEYS = None
+RISKY_FEATS = {'eol', 'based', 'based+params', 'param', 'kwparam', 'flag', '@nomemo', '@nostak', '@name', '@isname',
+               'keyword', 'fail', 'tok:sq+dq', 'pat:dq+slash', 'pat:edge-space', 'pat:nl', 'pat:empty', 'pat:dot',
+               'const:nl', 'const:bq', 'const:edge-space', 'const:empty', '@@namechars', '@@whitespace', '@@comments',
+               '@@eol_comments', '@@ignorecase'}
 
 
 class Prober:
@@ -1112,12 +1146,16 @@ class Prober:
         self.reported = set()
 
     def probe(self, key, ms, origin):
+        """failure of the minimal grammar ms (shrunk further when it fails); cached"""
         ck = (origin, key)
         if ck not in self.cache:
             ins = sample_inputs(ms, self.chk.rng, 3)
             f = failure(ms, origin, ins)
-            self.cache[ck] = (f, ins)
             self.chk.count('probe.' + ('ok' if f is None else f[0]))
+            if f is not None and f[0] != 'skip' and not self.chk.quick:
+                ms, ins = shrink(ms, origin, ins, f[0], 40)
+                f = failure(ms, origin, ins) or f
+            self.cache[ck] = (f, ins, ms)
         return self.cache[ck]
 
     def report(self, chk, f, origin, spec, ins):
@@ -1133,18 +1171,57 @@ class Prober:
             rep['source'] = None
         chk.violation(sig, f'{f[0]} {f[1]} for a model obtained via {origin}: ' + ' / '.join(features(spec)), rep)
 
+    def canonical(self, ms, origin, kind):
+        """a failing one-literal grammar -> the same grammar with the literal reduced to a canonical member of its
+        class (each candidate is an atom probe of its own, cached)"""
+        lits = [(r, e) for r in ms['rules'] for e in walk(r['exp']) if e[0] in ('tok', 'pat', 'const', 'alert')
+                and e[-1] not in ('a', 'b', ',', 'c')]
+        if len(lits) != 1:
+            return None
+        e = lits[0][1]
+        s = e[-1]
+        if not isinstance(s, str):
+            return None
+        parts = [(c, t) for c, t in (("'", 'sq'), ('"', 'dq'), ('\\', 'bs'), ('/', 'slash'), ('`', 'bq'), ('\n', 'nl'))
+                 if c in s]
+        cands = []
+        if s != s.strip() and s.strip():
+            cands += [' x', 'x ']
+        cands += [c for c, _ in parts]
+        cands += [a + b for i, (a, _) in enumerate(parts) for (b, _) in parts[i + 1:]]
+        cands += [b + a for i, (a, _) in enumerate(parts) for (b, _) in parts[i + 1:]]
+        for c in cands:
+            if c == s or (e[0] == 'pat' and not valid_re(c)):
+                continue
+            ne = e[:-1] + (c,)
+            key, ms2 = atoms(mini(ne))[0]
+            pf, ins, ms2 = self.probe(key, ms2, origin)
+            if pf is not None and pf[0] == kind:
+                return pf, ins, ms2
+        return None
+
     def explain(self, spec, origin, inputs, f):
         """report the failure f of spec with a minimal witness"""
         chk = self.chk
         at = atoms(spec)
         # cached failing atoms first
-        at.sort(key=lambda kv: 0 if (self.cache.get((origin, kv[0])) or (None,))[0] not in (None,) and
-                self.cache[(origin, kv[0])][0][0] != 'skip' else 1)
+        def rank(kv):
+            c = self.cache.get((origin, kv[0]))
+            if c is not None:
+                return 0 if (c[0] is not None and c[0][0] != 'skip') else 9
+            fs = features(kv[1])
+            return 1 if any(x in RISKY_FEATS or x.split(':')[0] in RISKY_FEATS for x in fs) else 2 if fs else 3
+        at.sort(key=rank)
         hit = False
         for key, ms in at:
-            pf, ins = self.probe(key, ms, origin)
+            if chk.quick and rank((key, ms)) == 9:
+                continue      # known to pass alone
+            pf, ins, ms = self.probe(key, ms, origin)
             if pf is None or pf[0] == 'skip':
                 continue
+            c = self.canonical(ms, origin, pf[0])
+            if c:
+                pf, ins, ms = c
             self.report(chk, pf, origin, ms, ins)
             if pf[0] == f[0]:
                 hit = True
@@ -1154,7 +1231,7 @@ class Prober:
             chk.count('explained.by-atom')
             return
         chk.count('explained.by-shrink')
-        small, sins = shrink(spec, origin, inputs, f[0], 250 if chk.quick else 800)
+        small, sins = shrink(spec, origin, inputs, f[0], 120 if chk.quick else 800)
         f2 = failure(small, origin, sins) or f
         self.report(chk, f2, origin, small, sins)
 
@@ -1180,18 +1257,18 @@ def sweep_atoms(chk: Check, prober: Prober):
     for k in JOINS:
         specs.append(mini((k, ('tok', ','), A)))
     specs.append(mini(('choice', [A, ('tok', 'b')])))
-    for spec in specs:
+    for i, spec in enumerate(specs):
         for key, ms in atoms(spec):
-            for og in ('text', 'json', 'prog', 'progjson'):
-                pf, ins = prober.probe(key, ms, og)
+            for og in (('text', 'json', 'prog', 'progjson') if i % 4 == 0 else ('text', 'prog')):
+                pf, ins, ms2 = prober.probe(key, ms, og)
                 chk.case(f'atom:{og}:{key}', nontrivial=pf is None or pf[0] != 'skip')
                 if pf is not None and pf[0] != 'skip':
-                    prober.report(chk, pf, og, ms, ins)
+                    prober.report(chk, pf, og, ms2, ins)
 
 
 def run_oracle(chk: Check):
     rng = chk.rng
-    n = 110 if chk.quick else 2500
+    n = 90 if chk.quick else 300
     nbad = 0
     prober = Prober(chk)
     if not chk.quick:
@@ -1223,11 +1300,296 @@ def run_oracle(chk: Check):
     chk.sample({'grammars': n, 'failing (incl. known)': nbad})
 
 
+# =====================================================================================================
+# P2: quoting level - Pretty.v vs repr / Token._pretty / Pattern._pretty / tatsu.compile
+# =====================================================================================================
+TRIPLE = ("'" * 3, '"' * 3)
+
+
+def eres(x):
+    if x == 'err':
+        return ('err',)
+    if x == 'unk':
+        return ('unk',)
+    return ('ok', sx_str(x[1]))
+
+
+def real_atom(lit_text: str, cls: str, attr: str):
+    """what tatsu.compile makes of `start: <lit_text>`: ('ok', text) | ('fail',) | ('other', class)"""
+    import tatsu
+    try:
+        m = tatsu.compile('start: ' + lit_text + '\n')
+    except Exception as e:
+        if 'regexp() generated invalid' in str(e):
+            return ('regexpp',)      # the lexeme was read; util.regexpp then fails on the pattern text (not C13)
+        return ('fail',)
+    e = m.rules[0].exp
+    if type(e).__name__ != cls or len(m.rules) != 1:
+        return ('other', type(e).__name__)
+    return ('ok', getattr(e, attr))
+
+
+def run_quoting(chk: Check, mr: ModelRun):
+    from tatsu.peg import Token, Pattern
+    from tatsu.util import trim
+    rng = chk.rng
+    alpha = ['a', "'", '"', '\\', '\n', 'n', 'x', '4', '1', ' ', '\t', 'é', '\x7f', '\x00', '\xa0', '\u200b',
+             '\U0001f600', 'u', 'U', '0', '{', '}', 'N', '/']
+    texts = [''.join(t) for t in ([()] + [(a,) for a in alpha] + [(a, b) for a in alpha for b in alpha])]
+    k = 3 if chk.quick else 4
+    texts += [s for s in vlib.all_strings('\'"\\a\n', k) if len(s) > 2]
+    for _ in range(300 if chk.quick else 3000):
+        texts.append(''.join(rng.choice(alpha) for _ in range(rng.randint(3, 9))))
+    texts = list(dict.fromkeys(texts))
+    # (a) py_repr vs repr() and Token._pretty
+    reqs = [f'(py_repr {sx([ord(c) for c in sorted(set(t)) if not c.isprintable()])} {sx(t)})' for t in texts]
+    bad = 0
+    for t, rep in zip(texts, mr.ask(reqs)):
+        model = sx_str(rep)
+        chk.case('repr:' + t, nontrivial=t != '')
+        chk.count('quoting.py_repr')
+        impl = repr(t)
+        tp = Token(token=t)._pretty() if t else impl
+        if model != impl or tp != impl:
+            bad += 1
+            chk.violation('corr:py_repr', f'py_repr model / Token._pretty / repr differ on {t!r}',
+                          {'correspondence': 'P2 py_repr', 'input': t, 'repr': impl, 'model': model, 'token_pretty': tp})
+    chk.obligation('P2a:py_repr (Pretty.v) = repr() = Token._pretty', 'correspondence', bad == 0)
+    # (b) unquote vs tatsu.compile of a one-rule grammar holding the literal
+    lits = [repr(t) for t in texts if t and len(t) <= 3][: (220 if chk.quick else 1500)]
+    lits += ["'a\\'b'", '"a\\"b"', "'\\x41'", "'\\x4'", "'\\x4g'", "'\\u0041'", "'\\u004'", "'\\U0001f600'",
+             "'\\U00110000'", "'\\101'", "'\\1'", "'\\18'", "'\\777'", "'\\q'", "'\\\\'", "'\\'", "'a\\", "'\\a\\b\\f\\v'",
+             "'a\nb'", "''", '""', "'\\N'", "'\\N{}'", "'\\x\n1'", "'ab' ", "'\\u00e9\\xe9'", "'\\ud800'",
+             "'\\U0000004'", "'\\8'", "'\\x4\\x41'", "'\\\\x41'"]
+    bad = 0
+    reqs = [f'(unquote {sx(l + chr(10))})' for l in lits]
+    for l, rep in zip(lits, mr.ask(reqs)):
+        chk.case('unquote:' + l)
+        chk.count('quoting.unquote')
+        if l.startswith(TRIPLE):
+            chk.count('quoting.unquote.outside-model')
+            continue
+        if rep == 'none':
+            model = ('fail',)
+        else:
+            r, rest = eres(rep[1][0]), sx_str(rep[1][1])
+            if r[0] == 'unk':
+                chk.count('quoting.unquote.outside-model')
+                continue
+            if rest.strip() != '':
+                chk.count('quoting.unquote.more-than-one-lexeme')
+                continue      # only the first lexeme is modelled; what follows is another element or garbage
+            if r[0] == 'err' or r[1] == '':
+                model = ('fail',)       # the codec raises / GrammarSemantics.token rejects the empty token
+            else:
+                model = r
+        impl = real_atom(l, 'Token', 'token')
+        if impl != model:
+            bad += 1
+            chk.violation('corr:unquote', f'string lexeme + eval_escapes model differs from tatsu.compile on {l!r}',
+                          {'correspondence': 'P2 unquote', 'literal': l, 'impl': list(impl), 'model': list(model)})
+    chk.obligation('P2b:lex_string + eval_escapes (Pretty.v) = tatsu.compile of a one-token grammar', 'correspondence',
+                   bad == 0)
+    # (c) the refutation witness of the theorem, replayed on the real code
+    w = '\'"'
+    got = real_atom(repr(w), 'Token', 'token')
+    chk.obligation('P2c:witness of C13_token_quoting_roundtrip_refuted replays on tatsu.compile', 'witness',
+                   got != ('ok', w), f'{got!r}')
+    if got != ('ok', w):
+        chk.violation('theorem:token-both-quotes',
+                      'repr() of a token with both kinds of quote is not read back (Coq witness replayed)',
+                      {'theorem': 'C13_token_quoting_roundtrip_refuted', 'token': w, 'pretty': repr(w),
+                       'compile': list(got)})
+    # (d) patterns
+    pats = [p_ for p_, _ in PATTERNS_CLEAN + PATTERNS_RISKY if p_]
+    palpha = ['a', '/', '"', '\\\\', '\\/', "'", '\\"', '\n', ' ', '.', '+']
+    for _ in range(100 if chk.quick else 1200):
+        p_ = ''.join(rng.choice(palpha) for _ in range(rng.randint(1, 5)))
+        if valid_re(p_):
+            pats.append(p_)
+    pats = list(dict.fromkeys(pats))
+    bad = 0
+    printed = []
+    for p_, rep in zip(pats, mr.ask([f'(pattern_pretty {sx(trim(p_))})' for p_ in pats])):
+        model = sx_str(rep)
+        impl = Pattern(pattern=p_)._pretty()
+        chk.case('pattern_pretty:' + p_)
+        chk.count('quoting.pattern_pretty')
+        if model != impl:
+            bad += 1
+            chk.violation('corr:pattern_pretty', f'pattern printer model differs on {p_!r}',
+                          {'correspondence': 'P2 pattern_pretty', 'input': p_, 'impl': impl, 'model': model})
+        printed.append(impl)
+    chk.obligation('P2d:pattern_pretty (Pretty.v, after trim) = Pattern._pretty', 'correspondence', bad == 0)
+    bad = 0
+    printed = [t for t in dict.fromkeys(printed) if t not in ('/./', '//') and not t.startswith('/*')]
+    for t, rep in zip(printed, mr.ask([f'(lex_regex {sx(t + chr(10))})' for t in printed])):
+        chk.case('lex_regex:' + t)
+        chk.count('quoting.lex_regex')
+        if rep == 'none':
+            model = ('fail',)
+        else:
+            body, rest = sx_str(rep[1][0]), sx_str(rep[1][1])
+            if rest.strip() != '':
+                chk.count('quoting.lex_regex.more-than-one-lexeme')
+                continue
+            model = ('ok', body) if valid_re(body) else ('fail',)
+        impl = real_atom(t, 'Pattern', 'pattern')
+        if impl == ('regexpp',):
+            chk.count('quoting.lex_regex.regexpp-defect')
+            continue
+        if impl != model:
+            bad += 1
+            chk.violation('corr:lex_regex', f'regex lexeme model differs from tatsu.compile on {t!r}',
+                          {'correspondence': 'P2 lex_regex', 'literal': t, 'impl': list(impl), 'model': list(model)})
+    chk.obligation('P2e:lex_regex (Pretty.v) = tatsu.compile of a one-pattern grammar', 'correspondence', bad == 0)
+    w = '"/'
+    got = real_atom(Pattern(pattern=w)._pretty(), 'Pattern', 'pattern')
+    chk.obligation('P2f:witness of C13_pattern_quoting_roundtrip_refuted replays on tatsu.compile', 'witness',
+                   got != ('ok', w), f'{got!r}')
+    if got != ('ok', w):
+        chk.violation('theorem:pattern-slash-and-dquote',
+                      'the pretty form of a pattern with a slash and a double quote is not read back (Coq witness replayed)',
+                      {'theorem': 'C13_pattern_quoting_roundtrip_refuted', 'pattern': w,
+                       'pretty': Pattern(pattern=w)._pretty(), 'compile': list(got)})
+
+
+# =====================================================================================================
+# P3: Rails.v vs railmath.py
+# =====================================================================================================
+def run_rails(chk: Check, mr: ModelRun):
+    from tatsu.railroads import railmath as rm
+    rng = chk.rng
+    chars = ['a', 'b', '─', ' ', '│', rm.ETX, '漢', 'é', '→', "'"]
+
+    def line():
+        return ''.join(rng.choice(chars) for _ in range(rng.randint(0, 6)))
+
+    def eqrails(maxh=4, allow_empty=True):
+        """rails whose lines have one display width"""
+        h = rng.randint(0 if allow_empty else 1, maxh)
+        if h == 0:
+            return []
+        w = rng.randint(0, 7)
+        out = []
+        for _ in range(h):
+            s = ''
+            while ulen(s) < w:
+                c = rng.choice(chars)
+                if ulen(s + c) <= w:
+                    s += c
+            out.append(s)
+        if rng.random() < 0.1:
+            out[rng.randrange(h)] = rm.ETX
+        return out
+
+    def wide(*rails_lists):
+        return sorted({ord(c) for rl in rails_lists for l in rl for c in l if ulen(c) == 2})
+
+    def call(fn, *a):
+        try:
+            return ('ok', fn(*a))
+        except AssertionError:
+            return ('assert',)
+        except IndexError:
+            return ('index',)
+
+    n = 300 if chk.quick else 5000
+    reqs, expect = [], []
+    for i in range(n):
+        k = i % 5
+        if k == 0:
+            r = [line() for _ in range(rng.randint(0, 4))]
+            reqs.append(f'(loop {sx(wide(r))} {sx(r)})')
+            expect.append(('loop', [r], call(rm.loop, r), True))
+        elif k == 1:
+            r = [line() for _ in range(rng.randint(0, 4))]
+            reqs.append(f'(stopnloop {sx(wide(r))} {sx(r)})')
+            expect.append(('stopnloop', [r], call(rm.stopnloop, r), True))
+        elif k == 2:
+            l, r = eqrails(), eqrails()
+            pre = len({ulen(x) for x in l}) <= 1 and len({ulen(x) for x in r}) <= 1
+            reqs.append(f'(weldtwo {sx(wide(l, r))} {sx(l)} {sx(r)})')
+            expect.append(('weldtwo', [l, r], call(rm.weldtwo, l, r), pre))
+        elif k == 3:
+            ts = [eqrails() for _ in range(rng.randint(0, 4))]
+            pre = all(len({ulen(x) for x in t}) <= 1 for t in ts)
+            reqs.append(f'(weld {sx(wide(*ts))} {sx(ts)})')
+            expect.append(('weld', ts, call(rm.weld, *ts), pre))
+        else:
+            ts = [eqrails(3, allow_empty=rng.random() < 0.15) for _ in range(rng.randint(0, 4))]
+            pre = all(t and len({ulen(x) for x in t}) <= 1 for t in ts)
+            reqs.append(f'(lay_out {sx(wide(*ts))} {sx(ts)})')
+            expect.append(('lay_out', ts, call(rm.lay_out, ts), pre))
+    bad = 0
+    for (fn, args, impl, pre), rep in zip(expect, mr.ask(reqs)):
+        chk.case(f'rails:{fn}:{args!r}', nontrivial=any(args))
+        chk.count('rails.' + fn)
+        if fn == 'lay_out':
+            model = ('index',) if rep == 'none' else ('ok', [sx_str(x) for x in (rep[1] if rep[1] != 'nil' else [])])
+        else:
+            model = ('ok', [sx_str(x) for x in (rep if rep != 'nil' else [])])
+        if impl[0] == 'assert' or (impl[0] == 'ok' and len({ulen(x) for x in impl[1]}) > 1):
+            if pre:
+                chk.violation('oracle:rails-unequal', f'{fn} gives lines of different widths on equal-width arguments',
+                              {'oracle': 'equal width', 'fn': fn, 'args': args, 'out': list(impl)})
+            if impl[0] == 'assert':
+                continue      # the model has no assertion; unequal arguments are outside the theorem
+        if impl != model:
+            bad += 1
+            chk.violation('corr:rails-' + fn, f'railmath.{fn} differs from Rails.v',
+                          {'correspondence': 'P3 ' + fn, 'args': args, 'impl': list(impl), 'model': list(model)})
+    chk.obligation('P3:railmath.py loop/stopnloop/weldtwo/weld/lay_out vs Rails.v (incl. wide characters and ETX)',
+                   'correspondence', bad == 0)
+
+
+def source_shape(chk: Check):
+    """the literals the Coq models were written against (fail closed)"""
+    ebnf = (vlib.REPO / 'tatsu/_tatsu.ebnf').read_text()
+    want = [r"""SINGLEQUOTED: /'((?:[^'\n]|\\'|\\\\)*?)'/ ~""", r'''DOUBLEQUOTED: /"((?:[^"\n]|\\"|\\\\)*?)"/ ~''',
+            r'''REGEX: &'/' ?"(?ms)/((?:[^/\\]|\\/|\\.)*)/" ~''', "regex: deprecated_regex | !'?/' ( REGEX | '?' =STRING)",
+            '''string: &('"'|"'") (multiline_string | singlequoted | doublequoted)''']
+    missing = [w for w in want if w not in ebnf]
+    chk.obligation('T1:_tatsu.ebnf string / regex lexemes as modelled', 'translator', not missing, '; '.join(missing))
+    st = (vlib.REPO / 'tatsu/util/strtools.py').read_text()
+    want = [r'( \\U........', r'| \\u....', r'| \\x..', r'| \\[0-7]{1,3}', r'| \\N\{[^}]+}', r'''| \\[\\'"abfnrtv]''']
+    missing = [w for w in want if w not in st]
+    chk.obligation('T2:eval_escapes alternatives as modelled', 'translator', not missing, '; '.join(missing))
+    rmsrc = (vlib.REPO / 'tatsu/railroads/railmath.py').read_text()
+    want = ['f"  ├─{railpad_(joint, maxl)}─┤ "', 'f"  │ {blankpad(rail, maxl)} │ "', 'f"  └─{railpad_(\'\', maxl)}<┘  "',
+            'f"──┬→{railpad_(\'\', maxl)}─┬──"', 'f"  ├→{railpad_(first, maxl)}─┤  "',
+            'f"──┬─{railpad_(first, maxl)}─┬──"', "ETX = '＄'", 'corner = "─┘ "', 'f"──┬─{blankpad(joint, maxl)} ┬─"']
+    missing = [w for w in want if w not in rmsrc]
+    chk.obligation('T3:railmath.py layout literals as modelled', 'translator', not missing, '; '.join(missing))
+
+
 def main():
     chk = Check(PID)
-    chk.rule = 'TODO'
+    chk.rule = ('O1: generated grammar models (1-5 rules; full expression language incl. $->, @meta, alerts, constants, '
+                'patterns with slashes/quotes, tokens with quotes/backslashes, joins/gathers, named/override, params, '
+                'kwparams, base rules, decorators, directives, keywords), every 4th from the risky pools, every 3rd built '
+                'with the tatsu.peg constructors; obtained via text / JSON reload / constructors / constructors+JSON; '
+                '3-5 sampled sentences + mutations each; failing grammars explained by single-feature probes (each a '
+                'minimal grammar) or shrunk. thorough: also every pool entry and node kind alone. P2: all texts of length '
+                '<= 2 over a 24-character alphabet, all of length <= 3 (quick) / 4 (thorough) over quote, dquote, backslash, '
+                'a, newline, random longer ones; hand-written escape literals. P3: random rails incl. wide characters and '
+                'ETX. Non-trivial: model obtained (not skipped) / text non-empty; distinct by content hash.')
+    chk.trusted += ['Python re, repr, codecs unicode-escape, unicodedata (oracles: printable, east_asian_width)',
+                    'modelled: repr of str, Pattern._pretty after trim, SINGLEQUOTED/DOUBLEQUOTED/REGEX/?STRING lexemes, '
+                    'eval_escapes, railmath.py; NOT modelled (oracle only): the node printers, layout / ENDRULE, trim(), '
+                    'multiline strings, backslash-N{name}, comment skipping before a lexeme, walker.py']
+    chk.assumptions += ['programmatically built models respect the precedence of the grammar (a Choice or Sequence nested '
+                        'in a Sequence / Named / lookahead is wrapped in a Group, as tatsu/g2e does); includes and bases '
+                        'name rules defined earlier']
+    source_shape(chk)
     if not chk.no_coq:
         chk.coq()
+    ok, out = vlib.build_modelrun('Pretty')
+    chk.obligation('modelrun_Pretty builds', 'build', ok, out[-500:])
+    if ok:
+        mr = ModelRun('Pretty')
+        run_quoting(chk, mr)
+        run_rails(chk, mr)
     run_oracle(chk)
     chk.exhaustive = False
     return chk.finish()
